@@ -1,5 +1,6 @@
 use crate::utils::pckg;
 use duckscript::types::command::{Command, CommandInvocationContext, CommandResult};
+use duckscript::types::env::Env;
 use duckscript::types::instruction::InstructionType;
 use duckscript::types::runtime::Context;
 use duckscript::{parser, runner};
@@ -91,7 +92,12 @@ impl Command for CommandImpl {
                                 let mut runner_context = Context::new();
                                 runner_context.commands = context.commands.clone();
 
-                                match runner::run_script(&script, runner_context, None) {
+                                // the test runs under the embedder's halt flag
+                                let runner_env =
+                                    Env::new(None, None, Some(context.env.halt.clone()));
+
+                                match runner::run_script(&script, runner_context, Some(runner_env))
+                                {
                                     Err(error) => {
                                         writeln!(
                                             context.env.out,
